@@ -1,4 +1,4 @@
-    use crate::{Path, PathBuf, HashMap, VMap, path_join, fs_exists, path_utf8, PacketTransport, VSource, VSink, VFiles, Result, ZVTError, IntoVErr, ZvtParser, ZvtSerializer, ACK_BYTES, data_block, disk, wd_bytes};
+    use crate::{Path, PathBuf, HashMap, VMap, path_join, fs_exists, path_utf8, PacketTransport, VSource, VSink, VFiles, Result, ZVTError, IntoVErr, ZvtParser, ZvtSerializer, ACK_BYTES, data_block, disk, disk_reliable, wd_bytes};
     use crate::n6::*;
     use crate::std;
     // the source file's own `use` list is not extracted: these are the std names a (changed) body may use unqualified
@@ -61,6 +61,22 @@
         &&& forall|i: nat| i < j ==> (#[trigger] pkt(b, i)) is Some
     }
     pub open spec fn is_final(p: WriteFileResponse) -> bool { p is CompletionData || p is Abort }
+    /// every announced file is (still) there
+    pub open spec fn files_exist(files: &VFiles) -> bool { forall|id: u8| files.paths().contains_key(id) ==> fs_exists(#[trigger] files.paths()[id]) }
+    /// The positive direction (cf. `fails_for_cause` of the plain sequences): on a reliable connection and file system, with
+    /// every announced file in place, an upload that has yielded j packets may end in an error only if what comes next - the
+    /// acknowledgement of the command, otherwise the (j+1)-th packet - is missing, incomplete or undecodable, or if that packet
+    /// is a data request without id or offset or for a file that was not announced.
+    pub open spec fn wf_fails_for_cause(inbox0: Seq<u8>, j: nat, files: &VFiles) -> bool {
+        match apdu_total(inbox0) {
+            None => true,
+            Some(t0) => if crate::Ack::parse_spec(inbox0.take(t0)) is None { true } else {
+                let b = inbox0.skip(t0);
+                ||| !(apdu_total(b.skip(off(b, j))) is Some && pkt(b, j) is Some)
+                ||| (pkt(b, j) matches Some(p) && !is_final(p) && !(req_of(p) matches Some((id, o)) && files.paths().contains_key(id)))
+            },
+        }
+    }
 
     /// the recognised payload files and their ids (Feig cVEND update manual as cited in the source; frozen table)
     pub open spec fn recognised() -> Seq<(Seq<char>, u8)> {
@@ -187,6 +203,10 @@
                     &&& forall|i: nat| i < j ==> (#[trigger] pkt(b, i)) is Some
                 })
             }),
+    //@ tag upload.fails_only_for_cause C11 C05
+            final(src).source.reliable() == old(src).source.reliable(),
+            (r is Err && old(src).source.reliable() && disk_reliable() && files_exist(files))
+                ==> wf_fails_for_cause(old(src).source.inbox(), (final(__sink).items().len() - old(__sink).items().len()) as nat, files),
     //@ untag
     //@ fn src:zvt/src/feig/sequences.rs | impl WriteFile | into_stream | bodyonly macro=try_stream from-stmt=src.write_packet_with_ack yieldctx=src all-loops props=C11,C05,~C06
     //@ loop 0
@@ -196,6 +216,8 @@
                 inbox0 == old(src).source.inbox(), c0 == old(src).source.consumed(), w0 == old(src).source.writes(),
                 items0 == old(__sink).items(),
                 buf@.len() == adpu_size,
+                src.source.reliable() == old(src).source.reliable(),
+                apdu_total(inbox0) matches Some(t0) && crate::Ack::parse_spec(inbox0.take(t0)) is Some,
                 wf_state::<Source>(src, __sink, packet.zs_spec(), files, adpu_size as nat, inbox0, c0, w0, items0, (__sink.items().len() - items0.len()) as nat),
                 __sink.items().len() >= items0.len(),
             ensures
